@@ -190,6 +190,17 @@ static std::vector<double> pick(const std::vector<Val>& a, bool T) { std::vector
 struct Tol { ld pos, gfloor, krel; };
 // tolerance for convergence (degrees) and scale (relative): documented floor + the change caused by moving the point by the
 // position tolerance, |d log(dz/dw)| = |sin phi| |dw|, |dw| = ds/(nu cos phi)   (unbounded at the poles and at the branch point)
+// failure class of the open finding 'extendp-south-accuracy': split by 10-degree latitude band and by decade of the error, so that the known-finding list excuses
+// only the (band, decade) pairs that occur on the unchanged tree
+static mc::Fields kf_south(Ctx& ctx, const char* param, double lat, ld mag, const char* unit, const char* qty) {
+  int k = (int)std::floor(-lat / 10); if (k < 0) k = 0; if (k > 8) k = 8;
+  std::string band = "extendp lat in [-" + std::to_string((k + 1) * 10) + "," + (k ? "-" + std::to_string(k * 10) : std::string("0")) + ")";
+  std::string ex;
+  if (!(mag == mag) || !std::isfinite((double)mag)) ex = std::string(unit) + " nan";
+  else { int p = (int)std::ceil(log10l(mag > 0 ? mag : 1e-30L)); if (p < -8) p = -8; if (p > 3) ex = std::string(unit) + ">1e+3"; else { char b[32]; snprintf(b, sizeof b, "%s<=1e%+d", unit, p); ex = b; } }
+  ctx.count(std::string("known-finding-class: ") + param + " | " + band + " | " + ex);
+  return {{"region", band}, {"excess", ex}, {"quantity", qty}};
+}
 // polar-ring tolerances (ground distance in metres for a = WGS84 a); calibrated on the unchanged tree, see the subcheck
 // clean-tree worst (20 parameter sets): series, |f| <= 0.01: 4.8 nm (round trips 2.8 nm); exact: round trips / central-meridian reverse 7.5 nm, against the oracle 9.0 nm;
 // series f = +-0.05: 9.4 um, f = 0.1: 1.5 mm (truncation of the 6th-order series)
@@ -392,9 +403,9 @@ int main(int argc, char** argv) {
               ctx.worst("exact-extsouth.fwd.pos/gross", (double)(err / gross), where);
               ctx.worst("exact-extsouth.fwd.pos_m", (double)err, where);
               if (err > gross) FAIL("fwd-oracle", "extended domain: ground error " + mc::fmtl(err) + " m > gross bound " + mc::fmtl(gross));
-              else if (err > tol.pos) FAIL("extendp-south-accuracy", "ground error " + mc::fmtl(err) + " m > " + mc::fmtl(tol.pos) + " (x=" + fx(x) + " y=" + fx(y) + " oracle " + mc::fmtl(R.x) + "," + mc::fmtl(R.y) + " k=" + mc::fmtl(R.k) + ")", {{"region", "extendp lat<0"}, {"quantity", "forward"}});
+              else if (err > tol.pos) FAIL("extendp-south-accuracy", "ground error " + mc::fmtl(err) + " m > " + mc::fmtl(tol.pos) + " (x=" + fx(x) + " y=" + fx(y) + " oracle " + mc::fmtl(R.x) + "," + mc::fmtl(R.y) + " k=" + mc::fmtl(R.k) + ")", kf_south(ctx, P.name, lat, err, "m", "forward"));
               if (eg * DEGL > tg * DEGL + grossa || ek > tk + grossa) FAIL("fwd-convergence", "extended domain: gamma err " + mc::fmtl(eg) + " deg, scale rel err " + mc::fmtl(ek) + " beyond gross bound");
-              else if (eg > tg || ek > tk) FAIL("extendp-south-accuracy", "gamma err " + mc::fmtl(eg) + " deg (tol " + mc::fmtl(tg) + "), scale rel err " + mc::fmtl(ek) + " (tol " + mc::fmtl(tk) + ")", {{"region", "extendp lat<0"}, {"quantity", "forward-gamma-k"}});
+              else if (eg > tg || ek > tk) FAIL("extendp-south-accuracy", "gamma err " + mc::fmtl(eg) + " deg (tol " + mc::fmtl(tg) + "), scale rel err " + mc::fmtl(ek) + " (tol " + mc::fmtl(tk) + ")", kf_south(ctx, P.name, lat, std::max<ld>(eg * DEGL, ek), "rel", "forward-gamma-k"));
             } else {
               ctx.worst(cls + ".fwd.pos/tol", (double)(err / tol.pos), where);
               if (calibrated || I.series) ctx.worst(std::string("series-envelope.") + P.name + (cmdist <= 3 ? ".b0<=3" : cmdist <= 10 ? ".b1<=10" : cmdist <= 20 ? ".b2<=20" : cmdist <= 35 ? ".b3<=35" : cmdist <= 50 ? ".b4<=50" : cmdist <= 60 ? ".b5<=60" : cmdist <= 70 ? ".b6<=70" : ".b7<=safe") + ".pos_m(a=WGS84)", (double)(err / ascale), where);
@@ -434,7 +445,7 @@ int main(int argc, char** argv) {
               if (LOST(s2)) gross = INFINITY;
               ctx.worst("exact-extsouth.roundtrip_m", (double)err, where);
               if (!(err <= gross) && gross < INFINITY) FAIL("roundtrip", "extended domain: reverse(forward) = lat " + fx(la2) + " lon " + fx(lo2) + ", ground error " + mc::fmtl(err) + " m > gross bound " + mc::fmtl(gross));
-              else if (!(err <= trt)) FAIL("extendp-south-accuracy", "round trip ground error " + mc::fmtl(err) + " m > " + mc::fmtl(trt), {{"region", "extendp lat<0"}, {"quantity", "roundtrip"}});
+              else if (!(err <= trt)) FAIL("extendp-south-accuracy", "round trip ground error " + mc::fmtl(err) + " m > " + mc::fmtl(trt), kf_south(ctx, P.name, lat, err, "m", "roundtrip"));
             } else {
               ctx.worst(cls + ".roundtrip/tol", (double)(err / trt), where);
               if (!(err <= trt)) FAIL("roundtrip", "reverse(forward) = lat " + fx(la2) + " lon " + fx(lo2) + ", ground error " + mc::fmtl(err) + " m > " + mc::fmtl(trt), PRO(err));
@@ -464,9 +475,9 @@ int main(int argc, char** argv) {
               if (LOST(sig2)) gross = grossa = INFINITY;
               ctx.worst("exact-extsouth.rev-oracle.pos_m", (double)err, where);
               if (!(err <= gross) && gross < INFINITY) FAIL("rev-oracle", "extended domain: Reverse(oracle image) = lat " + fx(la2) + " lon " + fx(lo2) + ", ground error " + mc::fmtl(err) + " m > gross bound " + mc::fmtl(gross));
-              else if (!(err <= trt)) FAIL("extendp-south-accuracy", "Reverse(oracle image) ground error " + mc::fmtl(err) + " m > " + mc::fmtl(trt), {{"region", "extendp lat<0"}, {"quantity", "reverse"}});
+              else if (!(err <= trt)) FAIL("extendp-south-accuracy", "Reverse(oracle image) ground error " + mc::fmtl(err) + " m > " + mc::fmtl(trt), kf_south(ctx, P.name, lat, err, "m", "reverse"));
               if ((eg * DEGL > tg * DEGL + grossa || ek > tk + grossa) && grossa < INFINITY) FAIL("rev-oracle-convergence", "extended domain: gamma err " + mc::fmtl(eg) + " scale rel err " + mc::fmtl(ek) + " beyond gross bound");
-              else if (!(eg <= tg) || !(ek <= tk)) FAIL("extendp-south-accuracy", "Reverse gamma err " + mc::fmtl(eg) + " deg, scale rel err " + mc::fmtl(ek), {{"region", "extendp lat<0"}, {"quantity", "reverse-gamma-k"}});
+              else if (!(eg <= tg) || !(ek <= tk)) FAIL("extendp-south-accuracy", "Reverse gamma err " + mc::fmtl(eg) + " deg, scale rel err " + mc::fmtl(ek), kf_south(ctx, P.name, lat, std::max<ld>(eg * DEGL, ek), "rel", "reverse-gamma-k"));
             } else {
               ctx.worst(cls + ".rev-oracle.pos/tol", (double)(err / trt), where);
               if (!(err <= trt)) FAIL("rev-oracle", "Reverse(oracle image) = lat " + fx(la2) + " lon " + fx(lo2) + ", ground error " + mc::fmtl(err) + " m > " + mc::fmtl(trt), PRO(err));
@@ -585,9 +596,9 @@ int main(int argc, char** argv) {
               if (LOST(sig2)) gross = grossa = INFINITY;
               ctx.worst("exact-extsouth.revgrid.pos_m", (double)err, where);
               if (!(err <= gross) && gross < INFINITY) FAIL("revgrid-oracle", "extended domain: Reverse -> lat " + fx(la) + " lon " + fx(lo) + " whose oracle image is " + mc::fmtl(err) + " m (ground) away > gross bound " + mc::fmtl(gross));
-              else if (!(err <= t)) FAIL("extendp-south-accuracy", "Reverse -> lat " + fx(la) + " lon " + fx(lo) + " whose oracle image is " + mc::fmtl(err) + " m (ground) away", {{"region", "extendp lat<0"}, {"quantity", "reverse-grid"}});
+              else if (!(err <= t)) FAIL("extendp-south-accuracy", "Reverse -> lat " + fx(la) + " lon " + fx(lo) + " whose oracle image is " + mc::fmtl(err) + " m (ground) away", kf_south(ctx, P.name, la, err, "m", "reverse-grid"));
               if (eg * DEGL > tg * DEGL + grossa || ek > tk + grossa) FAIL("revgrid-convergence", "extended domain: gamma err " + mc::fmtl(eg) + " scale rel err " + mc::fmtl(ek) + " beyond gross bound");
-              else if (!(eg <= tg) || !(ek <= tk)) FAIL("extendp-south-accuracy", "Reverse gamma err " + mc::fmtl(eg) + " deg, scale rel err " + mc::fmtl(ek), {{"region", "extendp lat<0"}, {"quantity", "reverse-grid-gamma-k"}});
+              else if (!(eg <= tg) || !(ek <= tk)) FAIL("extendp-south-accuracy", "Reverse gamma err " + mc::fmtl(eg) + " deg, scale rel err " + mc::fmtl(ek), kf_south(ctx, P.name, la, std::max<ld>(eg * DEGL, ek), "rel", "reverse-grid-gamma-k"));
               matched = true;
             } else {
               matched = err <= t;
@@ -619,6 +630,80 @@ int main(int argc, char** argv) {
       }
     }
   }
+  // ============================================================== subcheck: dense lattices in the extended domain south of the equator (extendp = true)
+  // The Newton start values of zetainv0 / sigmainv0 are chosen in 2-D pockets of the (psi, lam) resp. (xi, eta) plane; a wrong pocket boundary sends Newton to the wrong
+  // root in a thin sliver.  Forward side: lat -0.5 .. -10 step 0.1 x dlon 82.65 .. 90 step 0.05; Reverse side: xi = y/(a k0) in 0 .. -1 step 0.01 x eta/(K'-E') in 1 .. 2
+  // step 0.01 (covers the 0.75 / 1.25 thresholds of sigmainv0 and the pole-of-sigma pocket).
+  for (int pi = 0; pi < NPAR; ++pi) {
+    const Par& P = PARS[pi];
+    if (!(P.quick == 1 && P.exact)) continue;
+    Geo G(P);
+    std::vector<Impl> all = make_impls(P), impls;
+    for (auto& I : all) if (I.extendp) impls.push_back(I);
+    const ld ascale = G.a / WGS84_A, tolp = 16e-9L * ascale;
+    auto classify = [&](const std::string& where, const char* kind, double lat, ld err, ld t, ld gross, const char* qty, const std::string& msg, const Impl& I) {
+      if (err <= t) return;
+      mc::Fields f = {{"kind", kind}, {"param", P.name}, {"impl", I.name}};
+      if (err <= gross || !(gross < INFINITY)) { f[0].second = "extendp-south-accuracy"; for (auto& e : kf_south(ctx, P.name, lat, err, "m", qty)) f.push_back(e); }
+      ctx.fail(where + " " + kind, where + ": " + msg, f);
+    };
+    ctx.bound("extendp-dense", "extendp implementations on WGS84/0.9996 and WGS84/1: Forward side lat -0.5 .. -10 step 0.1 x dlon 82.65 .. 90 step 0.05 (oracle via-north, round trip, Reverse of the oracle image); "
+              "Reverse side y/(a k0) in 0 .. -1 step 0.01 x x/(a k0 (K'-E')) in 1 .. 2 step 0.01 (Forward(Reverse) in ground distance)");
+    ctx.sub(std::string("extendp-dense-forward/") + P.name);
+    for (int il = 5; il <= 100; ++il) {
+      if (!ctx.take()) continue;
+      const double lat = -il / 10.0;
+      ld sphi, cphi; tm_ode::sincosd<ld>(lat, sphi, cphi);
+      const ld Mr = G.Mrad(sphi), Pr = G.Prad(sphi, cphi);
+      for (int jl = 1653; jl <= 1800; ++jl) {
+        const double dlon = jl / 20.0;
+        if (dlon < (double)G.lonb) continue;
+        Ora R = oracle_raw(G, lat, dlon, tm_ode::VIA_NORTH, 10e-9L * ascale);
+        for (const Impl& I : impls) {
+          mc::Ctx::Case cs(ctx);
+          const std::string where = std::string(P.name) + " " + I.name + " lat=" + fmt(lat) + " dlon=" + fmt(dlon);
+          double x, y, g, k, la2, lo2, g2, k2;
+          I.fwd(0, lat, dlon, x, y, g, k); I.rev(0, x, y, la2, lo2, g2, k2);
+          if (!(std::isfinite(x) && std::isfinite(y) && std::isfinite(la2) && std::isfinite(lo2))) { ctx.fail(where + " nonfinite", where + ": non-finite result", {{"kind", "extendp-dense-nonfinite"}, {"param", P.name}, {"impl", I.name}}); continue; }
+          const ld kk = R.valid ? R.k : (ld)k, sig = hypotl((ld)x, (ld)y) / (G.a * G.k0);
+          const ld t = tolp + 4 * 1.1e-16L * hypotl((ld)x, (ld)y) / kk, gross = t + 16e-15L * sig * sig * G.a * G.k0 / kk;
+          ld e1 = hypotl(((ld)la2 - lat) * DEGL * Mr, angdiff((ld)lo2, (ld)dlon) * DEGL * Pr);
+          ctx.worst("extendp-dense.roundtrip_nm(a=WGS84)", (double)(e1 / ascale * 1e9L), where);
+          classify(where, "extendp-dense-roundtrip", lat, e1, t, gross, "roundtrip", "Reverse(Forward) = lat " + fx(la2) + " lon " + fx(lo2) + ", " + mc::fmtl(e1) + " m on the ground", I);
+          if (std::fabs((double)((ld)k2 / (ld)k - 1)) > 1e-6 && e1 <= t) ctx.fail(where + " k", where + ": Reverse k=" + fx(k2) + " Forward k=" + fx(k), {{"kind", "extendp-dense-scale"}, {"param", P.name}, {"impl", I.name}});
+          if (R.valid) {
+            ld e2 = hypotl((ld)x - R.x, (ld)y - R.y) / R.k;
+            ctx.worst("extendp-dense.forward-vs-oracle_nm(a=WGS84)", (double)(e2 / ascale * 1e9L), where);
+            classify(where, "extendp-dense-fwd-oracle", lat, e2, t, gross, "forward", "Forward differs from the oracle by " + mc::fmtl(e2) + " m (ground)", I);
+            double la4, lo4, g4, k4; I.rev(0, (double)R.x, (double)R.y, la4, lo4, g4, k4);
+            ld e4 = hypotl(((ld)la4 - lat) * DEGL * Mr, angdiff((ld)lo4, (ld)dlon) * DEGL * Pr);
+            ctx.worst("extendp-dense.reverse-of-oracle_nm(a=WGS84)", (double)(e4 / ascale * 1e9L), where);
+            classify(where, "extendp-dense-rev-oracle", lat, e4, t, gross, "reverse", "Reverse(oracle image) = lat " + fx(la4) + " lon " + fx(lo4) + ", " + mc::fmtl(e4) + " m on the ground", I);
+          } else ctx.count("extendp-dense.oracle-not-valid");
+        }
+      }
+    }
+    ctx.sub(std::string("extendp-dense-reverse/") + P.name);
+    for (int ix = 0; ix <= 100; ++ix) {
+      if (!ctx.take()) continue;
+      for (int ie = 100; ie <= 200; ++ie) for (const Impl& I : impls) {
+        const double X = (double)((ld)ie / 100 * G.etab * G.a * G.k0), Y = (double)(-(ld)ix / 100 * G.a * G.k0);
+        mc::Ctx::Case cs(ctx);
+        const std::string where = std::string(P.name) + " " + I.name + " x=" + fx(X) + " y=" + fx(Y) + " (xi=-" + fmt(ix / 100.0) + ", eta/KE=" + fmt(ie / 100.0) + ")";
+        double la, lo, g, k, x2, y2, g2, k2;
+        I.rev(0, X, Y, la, lo, g, k);
+        if (!(std::isfinite(la) && std::isfinite(lo) && std::isfinite(k))) { ctx.fail(where + " nonfinite", where + ": non-finite result", {{"kind", "extendp-dense-nonfinite"}, {"param", P.name}, {"impl", I.name}}); continue; }
+        if (!(la <= 1e-12 && lo >= (double)G.lonb - 1e-6 && lo <= 90 + 1e-9)) ctx.fail(where + " domain", where + ": Reverse -> lat " + fx(la) + " lon " + fx(lo) + " outside the extended domain", {{"kind", "extendp-dense-domain"}, {"param", P.name}, {"impl", I.name}});
+        I.fwd(0, la, lo, x2, y2, g2, k2);
+        const ld sig = hypotl((ld)X, (ld)Y) / (G.a * G.k0), kk = (ld)k;
+        const ld t = tolp + 4 * 1.1e-16L * hypotl((ld)X, (ld)Y) / kk, gross = t + 16e-15L * sig * sig * G.a * G.k0 / kk;
+        ld e = hypotl((ld)x2 - X, (ld)y2 - Y) / kk;
+        ctx.worst("extendp-dense.forward-of-reverse_nm(a=WGS84)", (double)(e / ascale * 1e9L), where);
+        classify(where, "extendp-dense-fwd-of-rev", la, e, t, gross, "reverse-grid", "Forward(Reverse) = " + fx(x2) + "," + fx(y2) + ", " + mc::fmtl(e) + " m (ground) away", I);
+      }
+    }
+  }
+
   // ============================================================== subcheck: polar rings
   // Rings from 100 m to 30 km around both poles (90 - {0.001 .. 0.3} deg), where Reverse goes through the large-tau branch of Math::tauf (asymptotic start value,
   // early return above taumax).  Forward -> Reverse -> Forward in ground distance (a longitude error near the pole is harmless: it is weighted by nu cos(lat)),
